@@ -343,7 +343,7 @@ func (x *X) obligation(st *State, kind, label string, goal Term, pos token.Pos, 
 		if i := strings.LastIndex(base, ":"); i >= 0 {
 			base = base[i+1:]
 		}
-		if extra := x.topC.AlsoProps[base]; len(extra) > 0 && explicit {
+		if extra := x.topC.AlsoProps[base]; len(extra) > 0 {
 			props = append(append([]string{}, props...), extra...)
 		}
 	}
